@@ -91,6 +91,8 @@ def _gen(ctx, salt, n_simple, n_derived, n_junk):
     for q in _quantities(ctx, rng, n_simple, n_derived):
         for shape in ("scalar", "list", "tuple", "nd"):
             for ty in oc.NUM_TYPES + oc.SMALL_TYPES:
+                if ty == "f16" and oc.mixed_units(ctx.db, q):
+                    continue  # the matched intermediate may leave the float16 range although operands and result do not
                 for f, side in FORMS:
                     n = rng.choice([0, 1, 2, 3, 5])
                     # the small numpy kinds meet float values only: with Python int elements numpy computes in the
